@@ -45,6 +45,14 @@ def preload():
 # ---------------------------------------------------------------------------
 
 
+def _safe(fn, *a):
+    """observation must never break the observed step"""
+    try:
+        return fn(*a)
+    except Exception as e:  # noqa
+        return {"observer_error": "%s: %s" % (type(e).__name__, e)}
+
+
 def _trace_writer(path, proc):
     def emit(rec):
         rec["proc"] = proc
@@ -91,8 +99,8 @@ def _canon_gm(g):
 def _canon_parts(p):
     sets = []
     for n, s in p.shape_sets.items():
-        sets.append([n, sorted(s), p._donor_cache.get(n, "")])
-    sets.sort(key=lambda t: t[0])
+        sets.append([n, sorted(s, key=repr), p._donor_cache.get(n, "")])  # key=repr: never raise on odd members
+    sets.sort(key=lambda t: repr(t[0]))
     blob = json.dumps(
         {
             "version": list(p.version),
@@ -118,7 +126,7 @@ def _wrap_config(emit):
 
         def write(dest, config):
             r = o_write(dest, config)
-            emit({"k": "config.write", "dest": os.path.abspath(dest), "cfg": _canon_cfg(config)})
+            emit({"k": "config.write", "dest": os.path.abspath(dest), "cfg": _safe(_canon_cfg, config)})
             return r
 
         def load(config_file=None, additional_srcs=None):
@@ -127,7 +135,7 @@ def _wrap_config(emit):
                 {
                     "k": "config.load",
                     "file": None if config_file is None else os.path.abspath(config_file),
-                    "cfg": _canon_cfg(r),
+                    "cfg": _safe(_canon_cfg, r),
                 }
             )
             return r
@@ -144,7 +152,7 @@ def _wrap_glyphmap(emit):
 
         def csv_line(self):
             r = o_csv(self)
-            emit({"k": "gm.csv_line", "gm": _canon_gm(self), "line": r})
+            emit({"k": "gm.csv_line", "gm": _safe(_canon_gm, self), "line": r})
             return r
 
         def parse_csv(filename):
@@ -153,7 +161,7 @@ def _wrap_glyphmap(emit):
                 {
                     "k": "gm.parse",
                     "file": os.path.abspath(filename),
-                    "gms": [_canon_gm(g) for g in r],
+                    "gms": [_safe(_canon_gm, g) for g in r],
                 }
             )
             return r
@@ -188,7 +196,7 @@ def _wrap_parts(emit):
             emit(
                 {
                     "k": "parts.to_json",
-                    "parts": _canon_parts(self),
+                    "parts": _safe(_canon_parts, self),
                     "text_sha": hashlib.sha256((r + "\n").encode()).hexdigest(),
                 }
             )
@@ -200,7 +208,7 @@ def _wrap_parts(emit):
                 {
                     "k": "parts.load",
                     "file": os.path.abspath(input_file),
-                    "parts": _canon_parts(r),
+                    "parts": _safe(_canon_parts, r),
                 }
             )
             return r
